@@ -72,6 +72,18 @@ pub fn strip_ref(e: &syn::Expr) -> &syn::Expr {
     }
 }
 
+/// the text of a value used as `&str`: `&`, `*`, and trailing argument-less `.as_str()` / `.as_ref()` are views of the
+/// same text, not different values
+pub fn text_view(e: &syn::Expr) -> &syn::Expr {
+    let e = strip_ref(e);
+    if let syn::Expr::MethodCall(m) = e {
+        if m.args.is_empty() && m.turbofish.is_none() && (m.method == "as_str" || m.method == "as_ref") {
+            return text_view(&m.receiver);
+        }
+    }
+    e
+}
+
 pub fn int_lit(e: &syn::Expr) -> Option<u64> {
     if let syn::Expr::Lit(l) = strip(e) {
         if let syn::Lit::Int(i) = &l.lit {
